@@ -1,5 +1,5 @@
 CONSTANTS T = 2  N = 70  S = 32  Dir = "enc"  EofPeek = TRUE  Pad = 0
-  Gate = TRUE  NotifyReady = TRUE  NotifyUpdate = FALSE  WaitLoop = TRUE  ReadyTest = TRUE  Spurious = FALSE
+  Gate = TRUE  NotifyReady = TRUE  NotifyUpdate = FALSE  WaitLoop = TRUE  ReadyTest = TRUE  Spurious = FALSE  Unbounded = FALSE
   Loads <- MCLoads  DecPad <- MCDecPad
 SPECIFICATION Spec
 INVARIANTS TypeOK Exclusive NoUnderflow InOrder OutPrefix OutExact Quiescent LockDiscipline
